@@ -189,7 +189,7 @@ class C12(Check):
                    "time stamps of change sets are not compared",
                    "serializer domain: str/int/bool/None atoms, list/tuple/dict; dict keys that python_to_json rejects (reserved '$') are outside the quantifier"]
     chunksize = 2
-    budget_quick = 200
+    budget_quick = 450
 
     def bound_text(self, tier):
         return ("histories depth<=3 x one or two reopens at every position; serializer values <=5 nodes" if tier == "quick"
